@@ -19,26 +19,31 @@ class C12(Prop):
     methods compared with each other on strict profiles."""
 
     id = "C12"
-    level = "other"
+    level = "proof"
     design_ref = "§8 C12"
-    level_text = ("Lean: (1) the three ILP constraint systems are modelled and compared with the real python-mip models on every "
+    level_text = ("Lean: (1) the statement-level model of the Erdelyi-Lackner-Pfandler dynamic programme behind "
+                  "k_alternative_deletion (incl. CPython set order; same output as the real function on 12 000+ profiles and "
+                  "on every run) is proved correct: its answer is a valid certificate (C12DP.deletion_cert: removed = "
+                  "complement of the axis, restricted profile single-peaked on the axis) and it is OPTIMAL "
+                  "(C12Opt.deletion_optimal: no larger set of alternatives admits a single-peaked restriction, for every "
+                  "iteration order of the sets; C12Opt.deletion_sp_complete: a single-peaked profile loses nothing); "
+                  "(2) the three ILP constraint systems are modelled and compared with the real python-mip models on every "
                   "case; their semantics is proved: an integral point is feasible iff the orders (alternatives) whose deletion "
                   "variable is 0 are single-peaked on the encoded axis (votdel_*, altdel_* theorems), so the ILP optimum is the "
-                  "true minimum for every solver returning an optimal integral point (CBC contract); (2) a statement-faithful "
-                  "model of the Erdelyi-Lackner-Pfandler dynamic programme (incl. CPython set order; same output as the real "
-                  "function on 12 000+ profiles) with theorems that its answer is always a valid certificate "
-                  "(deletion_cert: removed = complement of the axis, restricted profile single-peaked on the axis); "
-                  "(3) verified certificate checkers and brute-force optima. Optimality of the dynamic programme and the "
-                  "solver contract are compared with the verified brute force on every run (tested, not proved)")
-    level_note = ("Lean kernel + standard axioms for checkers/brute force; CBC through python-mip and the dynamic "
-                  "programme are outside Lean; sizes kept below 20 alternatives so the 5% MIP gap cannot hide a unit")
-    technique = "Lean-verified certificate checkers and brute-force optima; differential correspondence on optimum and certificate"
+                  "true minimum for every solver returning an optimal integral point (the CBC contract, exercised on every "
+                  "run against the verified optimum, not proved); (3) verified certificate checkers and brute-force optima")
+    level_note = ("Lean kernel + standard axioms; hand-written models tied to the code by differential testing; CBC "
+                  "through python-mip is a contract (sizes kept below 20 alternatives so the 5% MIP gap cannot hide a unit)")
+    technique = ("Lean 4 proof (validity and optimality of the dynamic programme, semantics of the ILPs) about executable "
+                 "models + model/implementation correspondence check; solver contract tested against verified optima")
     theorems = [
         "PrefVerif.C12DP.deletion_cert",
         "PrefVerif.C12DP.axis_removed_perm",
         "PrefVerif.C12DP.axis_nodup",
         "PrefVerif.C12DP.axis_spOnSubset",
         "PrefVerif.C12DP.axis_ne_nil",
+        "PrefVerif.C12Opt.deletion_optimal",
+        "PrefVerif.C12Opt.deletion_sp_complete",
         "PrefVerif.ILPP.votdel_axis_feasible",
         "PrefVerif.ILPP.votdel_feasible_axis",
         "PrefVerif.ILPP.altdel_feasible_axis",
